@@ -169,7 +169,7 @@ extern "C" void vp_main() {
   // ---- the monitor consumes the step's events in order ----
   bool fault = tr->m_nfault != faultsBefore;
   vp_assert("harness: event buffer large enough", g_nEv <= 8);
-  bool won = false, lost = false;
+  bool won = false, lost = false, lateEcho = false;
   {
     bool first = true;
     bool faultPending = fault;
@@ -179,6 +179,13 @@ extern "C" void vp_main() {
     for (int i = 0; i < 8; i++) {
       if (i < g_nEv && g_evKind[i] == 1) {
         if (first && r.arb) { r.sym(false, 0, g_evByte[i]); won = r.own; lost = r.lost; }
+        else if (first && preChk == 1 && g_evByte[i] == preAm) {
+          // late echo of the own arbitration address (a read timed out between the write and its echo): the address was
+          // written directly after a SYN, so on the wire it IS the first symbol after that SYN; ebusd declines to continue
+          // ("won in invalid state") and receives it as the source of a telegram. The monitor re-synchronises likewise.
+          lateEcho = true;
+          p.syn(); p.sym(g_evByte[i]);
+        }
         else { r.arb = false; p.sym(g_evByte[i]); }
         first = false;
       }
@@ -228,7 +235,8 @@ extern "C" void vp_main() {
   {
     bool noSignal = h.m_state == bs_noSignal;
     bool devError = tr->m_nrderr != 0;
-    bool lostNow = (preChk == 1 && g_nRd >= 1 && !won && !(fault && g_nRd == 0)) || (preAm != SYN && devError) ;
+    bool lostNow = (preChk == 1 && g_nRd >= 1 && !won && !lateEcho && !(fault && g_nRd == 0)) || (preAm != SYN && devError);
+    if (lateEcho && !noSignal && NQ >= 1) vp_assert("late-echo-leaves-the-request-queued", g_notifyCount[0] == 0 && countIn(h.m_nextRequests, req0) == 1 && h.m_currentRequest == nullptr);
     for (int k = 0; k < 2; k++) {
       RecRequest* q = k == 0 ? req0 : req1;
       bool present = k == 0 ? NQ >= 1 : NQ >= 2;
@@ -243,7 +251,8 @@ extern "C" void vp_main() {
         if (g_deleted[k] == 1) vp_assert("deleted-only-after-completion-of-a-self-deleting-request", cnt >= 1 && del);
         bool drained = g_restart[k] && noSignal && cnt == 2 && g_notifyResult[k] == RESULT_ERR_NO_SIGNAL;
         vp_assert("completed-at-most-once", cnt <= 1 || drained);
-        if (cnt >= 1 && g_restart[k]) vp_assert("restart-requeues-the-request", (cnt == 1 && inNext == 1) || drained);
+        bool drainedOnly = noSignal && cnt == 1 && g_notifyResult[k] == RESULT_ERR_NO_SIGNAL;   // the drain ignores the callback's answer by design
+        if (cnt >= 1 && g_restart[k] && !drainedOnly) vp_assert("restart-requeues-the-request", (cnt == 1 && inNext == 1) || drained);
         if (cnt >= 1 && !(cnt == 1 && g_restart[k] && inNext == 1)) {
           if (del) vp_assert("self-deleting-request-deleted-once-and-nowhere-queued", g_deleted[k] == 1 && inNext == 0 && inFin == 0);
           else vp_assert("waited-request-handed-to-the-finished-queue-once", g_deleted[k] == 0 && inNext == 0 && inFin == 1);
